@@ -166,6 +166,54 @@ func init() {
 						}
 					}
 				}
+				if nR == 0 {
+					// shared helper taking the purge as a callback: helper(func(r){ r.forwardTSNFor<suf>(x) }) with
+					// isReadable() evaluated in the helper after it has called the callback
+					for _, fn := range c.P.Funcs {
+						if enclosingNamed(fn) != wr {
+							continue
+						}
+						forEachInstr(fn, func(in ssa.Instruction) {
+							ci, isCall := in.(ssa.CallInstruction)
+							if !isCall {
+								return
+							}
+							hlp := ci.Common().StaticCallee()
+							if hlp == nil || !c.P.inPkg(hlp) || hlp.Blocks == nil {
+								return
+							}
+							for ai, a := range ci.Common().Args {
+								mc, isMc := a.(*ssa.MakeClosure)
+								if !isMc {
+									continue
+								}
+								cb, _ := mc.Fn.(*ssa.Function)
+								if cb == nil || len(callsIn(cb, target)) == 0 || ai >= len(hlp.Params) {
+									continue
+								}
+								// in the helper: the dynamic call of that parameter dominates isReadable()
+								var dyn []ssa.Instruction
+								forEachInstr(hlp, func(y ssa.Instruction) {
+									if cj, ok := y.(ssa.CallInstruction); ok && !cj.Common().IsInvoke() && cj.Common().Value == ssa.Value(hlp.Params[ai]) {
+										dyn = append(dyn, y)
+									}
+								})
+								for _, rc := range callsIn(hlp, isR) {
+									nR++
+									after := false
+									for _, d := range dyn {
+										if InstrDominates(d, rc) {
+											after = true
+										}
+									}
+									if !after {
+										okAfter = false
+									}
+								}
+							}
+						})
+					}
+				}
 				c.Check(nR >= 1 && okAfter, "wake-after-purge:"+suf, c.P.Pos(wr.Pos()), "readability is tested after the purge (the reader is signalled for what the skip released)", "readability is tested before the purge: a message that becomes deliverable because of the skip does not wake a blocked reader")
 			}
 		}})
